@@ -473,6 +473,58 @@ func F4() []*Case {
 		{Name: "C3", Num: 9, T: dsl.Msg, Ref: dsl.Timestamp, StdTime: true, Oneof: "Third"},
 	}}
 	out = append(out, &Case{Label: "F4/oneofs", Family: "F4", Tags: map[string]string{"card": "oneof", "vt": "three-groups", "class": "oneof", "pos": "P0"}, File: newFile(three), Cfg: BaseConfig("Root")})
+	// two oneof groups whose branch names interleave alphabetically (matters once fields are sorted)
+	inter := &dsl.Message{Name: "Root", Oneofs: []string{"Kind", "Mode"}, Fields: []*dsl.Field{
+		{Name: "Alpha", Num: 1, T: dsl.String, Oneof: "Kind"},
+		{Name: "Gamma", Num: 2, T: dsl.Msg, Ref: "Leaf", Oneof: "Kind"},
+		{Name: "Beta", Num: 3, T: dsl.Int32, Oneof: "Mode"},
+		{Name: "Delta", Num: 4, T: dsl.Bool, Oneof: "Mode"},
+		{Name: "Epsilon", Num: 5, T: dsl.Bytes, Oneof: "Kind"},
+		{Name: "Zed", Num: 6, T: dsl.String},
+	}}
+	out = append(out, &Case{Label: "F4/interleaved-oneofs", Family: "F4", Tags: map[string]string{"card": "oneof", "vt": "interleaved-groups", "class": "oneof", "pos": "P0"}, File: newFile(inter), Cfg: BaseConfig("Root")})
+	// two different nullable embedded messages side by side, each with collection, oneof and
+	// custom-type children and no scalar between them; plus a by-value embed next to a nullable one
+	auth := &dsl.Message{Name: "Auth", Oneofs: []string{"Method"}, Fields: []*dsl.Field{
+		{Name: "User", Num: 1, T: dsl.String},
+		{Name: "Token", Num: 2, T: dsl.String, Oneof: "Method"},
+		{Name: "Cert", Num: 3, T: dsl.Msg, Ref: "Leaf", Oneof: "Method"},
+		{Name: "Scopes", Num: 4, T: dsl.String, Card: dsl.Repeated},
+	}}
+	limits := &dsl.Message{Name: "Limits", Oneofs: []string{"Window"}, Fields: []*dsl.Field{
+		{Name: "Quotas", Num: 1, T: dsl.Int64, Card: dsl.Map},
+		{Name: "Burst", Num: 2, T: dsl.Int32, Oneof: "Window"},
+		{Name: "Period", Num: 3, T: dsl.Msg, Ref: dsl.Duration, StdDur: true, Oneof: "Window"},
+		{Name: "Flags", Num: 4, T: dsl.Bool, CustomType: "BoolCustom", Card: dsl.Repeated},
+		{Name: "Note", Num: 5, T: dsl.String},
+	}}
+	twoPtr := &dsl.Message{Name: "Root", Fields: []*dsl.Field{
+		{Name: "Auth", Num: 1, T: dsl.Msg, Ref: "Auth", Embed: true},
+		{Name: "Limits", Num: 2, T: dsl.Msg, Ref: "Limits", Embed: true},
+		{Name: "Tail", Num: 3, T: dsl.String},
+	}}
+	out = append(out, &Case{Label: "F4/two-nullable-embeds", Family: "F4", Tags: map[string]string{"card": "embed", "vt": "two-embeds", "class": "embedded", "pos": "P0"}, File: newFile(twoPtr, auth, limits), Cfg: BaseConfig("Root")})
+	mixed := &dsl.Message{Name: "Root", Fields: []*dsl.Field{
+		{Name: "Limits", Num: 1, T: dsl.Msg, Ref: "Limits", Embed: true, Nullable: dsl.B(false)},
+		{Name: "Auth", Num: 2, T: dsl.Msg, Ref: "Auth", Embed: true},
+		{Name: "Kids", Num: 3, T: dsl.Msg, Ref: "Holder", Card: dsl.Repeated, Nullable: dsl.B(false)},
+	}}
+	// element messages held by value (list and map) that embed a nullable message with collection,
+	// oneof and custom children
+	elemHost := &dsl.Message{Name: "Host", Fields: []*dsl.Field{
+		{Name: "Limits", Num: 1, T: dsl.Msg, Ref: "Limits", Embed: true},
+		{Name: "HostName", Num: 2, T: dsl.String},
+	}}
+	byValue := &dsl.Message{Name: "Root", Fields: []*dsl.Field{
+		{Name: "Hosts", Num: 1, T: dsl.Msg, Ref: "Host", Card: dsl.Repeated, Nullable: dsl.B(false)},
+		{Name: "ByName", Num: 2, T: dsl.Msg, Ref: "Host", Card: dsl.Map, Nullable: dsl.B(false)},
+		{Name: "Inline", Num: 3, T: dsl.Msg, Ref: "Host", Nullable: dsl.B(false)},
+		{Name: "Ptrs", Num: 4, T: dsl.Msg, Ref: "Host", Card: dsl.Repeated},
+	}}
+	limits3 := *limits
+	out = append(out, &Case{Label: "F4/value-elements-with-nullable-embed", Family: "F4", Tags: map[string]string{"card": "embed", "vt": "embed-in-value-elements", "class": "embedded", "pos": "P3"}, File: newFile(byValue, elemHost, &limits3), Cfg: BaseConfig("Root")})
+	auth2, limits2 := *auth, *limits
+	out = append(out, &Case{Label: "F4/value-and-nullable-embed", Family: "F4", Tags: map[string]string{"card": "embed", "vt": "two-embeds-mixed", "class": "embedded", "pos": "P0"}, File: newFile(mixed, &auth2, &limits2), Cfg: BaseConfig("Root")})
 	return out
 }
 
